@@ -176,6 +176,23 @@ fn encode<'t, T>(
     use crate::token::LeafKind::{Class, Literal, Separator, Wildcard};
     use crate::token::Wildcard::{One, Tree, ZeroOrMore};
 
+    // Combines the position of an enclosing branch (or branches) with the position of a token
+    // within a branch, such that the output describes whether or not any tokens precede and/or
+    // follow the token in the complete expression.
+    fn superpose(superposition: Option<Position>, position: Position) -> Position {
+        let has_left = |position| matches!(position, Middle | Last);
+        let has_right = |position| matches!(position, First | Middle);
+        let (left, right) = superposition.map_or((false, false), |superposition| {
+            (has_left(superposition), has_right(superposition))
+        });
+        match (left || has_left(position), right || has_right(position)) {
+            (false, false) => Only,
+            (false, true) => First,
+            (true, false) => Last,
+            (true, true) => Middle,
+        }
+    }
+
     fn encode_intermediate_tree(grouping: Grouping, pattern: &mut String) {
         pattern.push_str(sepexpr!("(?:{0}|{0}"));
         grouping.push_str(pattern, sepexpr!(".*{0}"));
@@ -293,7 +310,7 @@ fn encode<'t, T>(
                             pattern.push_str("(?:");
                             encode::<Token<_>>(
                                 Grouping::NonCapture,
-                                superposition.or(Some(position)),
+                                Some(superpose(superposition, position)),
                                 &mut pattern,
                                 token,
                             );
@@ -311,7 +328,7 @@ fn encode<'t, T>(
                         pattern.push_str("(?:");
                         encode::<Token<_>>(
                             Grouping::NonCapture,
-                            superposition.or(Some(position)),
+                            Some(superpose(superposition, position)),
                             &mut pattern,
                             repetition.token(),
                         );
